@@ -6,18 +6,18 @@ tier="${1:-quick}"; shift || true
 cd /verif
 names=("$@"); if [ ${#names[@]} -eq 0 ]; then names=($(ls seeded | grep -E '^C[0-9]+-' )); fi
 out=seeded/MATRIX.md
-{ echo "# Seeded changes vs checks ($tier tier) — $(git -C /repo log --oneline | head -1)"; echo; echo "| seeded change | property | verdict | first signature | wall |"; echo "|---|---|---|---|---|"; } > "$out.tmp"
+{ echo "# Seeded changes vs checks ($tier tier) — $(git -C /repo log --oneline | head -1)"; echo; echo "| seeded change | property | verdict | first signature | wall |"; echo "|---|---|---|---|---|"; } > "$out.tmp.$$"
 for n in "${names[@]}"; do
   prop=$(python3 -c "import json;print(json.load(open('seeded/$n/meta.json'))['property'])" 2>/dev/null || echo "${n%%-*}")
   res=$(MUTANT_LINES=40 ./tools_mutant.sh /verif/seeded/$n/patch.diff "$prop" "$tier" 2>&1)
   rc=$(echo "$res" | grep -o 'exit=[0-9]*' | tail -1); wall=$(echo "$res" | grep -o 'wall=[0-9]*s' | tail -1)
   sig=$(echo "$res" | grep -m1 '^  signature:' | sed 's/^  signature: //' | cut -c1-110 | sed 's/|/\\|/g')
   if echo "$res" | grep -q '^VIOLATION' && [ "$rc" = "exit=1" ]; then v="DETECTED"; elif echo "$res" | grep -q 'does not apply'; then v="patch does not apply"; else v="MISSED ($rc)"; fi
-  echo "| $n | $prop | $v | $sig | $wall |" >> "$out.tmp"
+  echo "| $n | $prop | $v | $sig | $wall |" >> "$out.tmp.$$"
   echo "$n $prop $v"
 done
 # rows of changes that were not re-run are kept from the previous matrix
-python3 - "$out" "$out.tmp" <<'PY'
+flock /root/matrix.lock python3 - "$out" "$out.tmp.$$" <<'PY'
 import sys,re
 old,new=sys.argv[1],sys.argv[2]
 rows={}
@@ -31,4 +31,4 @@ read(old); read(new)
 head=[l for l in open(new).read().split("\n") if not re.match(r"\| C\d+-",l) and l.strip()]
 open(old,"w").write("\n".join(head[:1]+[""]+head[1:]+[rows[k] for k in sorted(rows)])+"\n")
 PY
-rm -f "$out.tmp"
+rm -f "$out.tmp.$$"
